@@ -74,6 +74,11 @@ structure Coin where
   Amount : Int
 deriving Repr, DecidableEq
 
+/-- `sdk.NewCoin` panics on a negative amount (the denomination is assumed well-formed) -/
+def newCoin (denom : String) (amount : Int) : Option Coin := if amount < 0 then none else some ⟨denom, amount⟩
+/-- `sdk.NewCoins(c)` of one coin: zero coins are dropped -/
+def newCoins1 (c : Coin) : List Coin := if c.Amount = 0 then [] else [c]
+
 /-- an effect on something the translator does not interpret: the callee's path and its integer arguments -/
 structure Effect where
   name : String
